@@ -4827,6 +4827,18 @@ fn process_relocation<'data, 'scope, A: Arch<Platform = Elf>, R: Relocation>(
     let args = resources.symbol_db.args;
     let mut next_modifier = RelocationModifier::Normal;
     if let Some(local_sym_index) = rel.symbol() {
+        // Check what a corrupt object could get wrong before anything indexes with it.
+        ensure!(
+            local_sym_index.0 < object.symbol_id_range.len(),
+            "Relocation refers to symbol {} but the file has only {} symbols",
+            local_sym_index.0,
+            object.symbol_id_range.len()
+        );
+        ensure!(
+            rel.offset() < object::read::elf::SectionHeader::sh_size(section, LittleEndian),
+            "Relocation at offset {:#x} is outside its section",
+            rel.offset()
+        );
         let symbol_db = resources.symbol_db;
         let local_symbol_id = object.symbol_id_range.input_to_id(local_sym_index);
         let symbol_id = symbol_db.definition(local_symbol_id);
